@@ -317,7 +317,8 @@ CLIENT_K = {'quick': 5, 'thorough': 6}
 # ------------------------------------------------------------------------------------------------
 # IRC
 
-ARGS = ('x', '', ' ', 'x y', ':x', 'x:y', '\r', 'a\rb', '\n', 'a\nb', 'x\n', 'x\r', '\0', '\u00e9')   # incl. a line end at the END of a value
+ARGS = ('x', '', ' ', 'x y', ':x', 'x:y', '\r', 'a\rb', '\n', 'a\nb', 'x\n', 'x\r', '\0', '\u00e9',
+        'x ', ' x', 'x\t', 'x  y')   # incl. a line end at the END of a value, white space at either end, a tab, a double space
 PREFIXES = ARGS + ('n!u@h',)
 PARSED_BACK = ('ok', 'from_string-raises', 'from_string-differs')   # parsemsg() gave the fields back
 REFUSALS = (irc_message.Error, irc_utils.Error, ValueError)
